@@ -31,6 +31,7 @@ def valStr : V → String
   | .str n => s!"(s {n})"
   | .al nm n => s!"(al {hexOfString nm} {n})"
   | .core nm => s!"(core {hexOfString nm})"
+  | .tset nm ver => s!"(tset {hexOfString nm} {ver})"
 
 /-- parents of the tree nodes; `(p P)` with -1 ≤ P < i, `(f P)` with 0 ≤ P < i; `(st)` (the static loader) as node 0 only;
     `(dep (xMOD L)*)` a dependency loader (no parent) -/
@@ -124,6 +125,7 @@ def coreNames : List String := ["integer"]
 def opNames : OpQ → List Name
   | .op (.load _ n) | .op (.define _ n _) | .op (.has _ n) | .op (.get _ n) | .reg n _ => [n]
   | .op (.discover _ _) | .rr _ => []
+  | .addts _ nm _ ms => ⟨runtimeAuthority, "type", nm⟩ :: ms.map fun m => memberName nm m.1
 
 /-- the entries of the static loader among the names of the line -/
 def staticEnts (ops : List OpQ) : Ents :=
@@ -133,8 +135,19 @@ def staticEnts (ops : List OpQ) : Ents :=
 
 /-- with a read-only static node 0 `(st)`: it may only be asked, never loaded through or defined in -/
 def addressOK (st : Bool) : OpQ → Bool
-  | .op (.load l _) | .op (.define l _ _) | .rr l => !(st && l == 0)
+  | .op (.load l _) | .op (.define l _ _) | .rr l | .addts l _ _ _ => !(st && l == 0)
   | _ => true
+
+def isAddTs : OpQ → Bool
+  | .addts _ _ _ _ => true
+  | _ => false
+
+/-- an identifier as the type-set grammar wants it for the set and its members: a capital letter, then letters (no digits:
+    `(stw)` lines), members distinct up to letter case -/
+def tsIdentOK (s : String) : Bool :=
+  match s.toList with
+  | c :: r => ('A' ≤ c && c ≤ 'Z') && r.all isLetter
+  | [] => false
 
 /-- `(stw)`: the static loader as a WRITABLE node 0.  The harness then gives every name of the line a suffix `0<n>` that no
     other line uses (what is written into the process-wide static loader stays there), so every name byte must sort above
@@ -182,6 +195,15 @@ def stepOfQ (nl : Nat) : Sexp → Option OpQ
   | .list [.atom "rr", l] => do
     let l ← l.nat?
     if l < nl then pure (.rr l) else none
+  | .list (.atom "addts" :: l :: x :: ver :: ms) => do
+    -- px.AddTypes(ctx_l, TypeSet NAME version 1.0.VER {MEMBER = Integer[k,k] …})
+    let l ← l.nat?; let nm ← x.str?; let ver ← ver.nat?
+    let ms ← ms.mapM fun (m : Sexp) => match m with
+      | .list [x, k] => do
+        let mn ← x.str?; let k ← k.nat?
+        pure (mn, k)
+      | _ => none
+    if l < nl ∧ ms ≠ [] ∧ tsIdentOK nm ∧ ms.all (fun m => tsIdentOK m.1) ∧ (ms.map fun m => lower m.1).Nodup then pure (.addts l nm ver ms) else none
   | e => (stepOf nl e).map .op
 
 def ansStr : Ans → String
@@ -257,6 +279,7 @@ def exec : List Sexp → String
         let anyTS := (tsTable nodes).any Option.isSome
         if !(ops.all (addressOK st)) || !tsShapeOK nodes ps st || !depNodesOK nodes ps dps then "bad-op"
         else if stw && (anyTS || dps.any Option.isSome || !((ops.flatMap opNames).all nameBytesOK)) then "bad-op"
+        else if (anyTS || stw) && ops.any isAddTs then "bad-op"
         else
           let s0 := if st then (Sys.init ps).setEnts 0 (staticEnts ops) else Sys.init ps
           -- every discovery predicate is restricted to the names of the line (with a type-set loader: also to their forms
